@@ -88,8 +88,22 @@ def overrides(world, ctx):
     def o_clone(interp, args, info):
         return tok(interp, args[0])
 
+    def o_eq(interp, args, info):
+        """structural equality of two intervals: the same token is equal; different sets (or different gate tags) are
+        not; two distinct tokens denoting the same set may or may not be the same interval (both explored)"""
+        s, t = tok(interp, args[0]), tok(interp, args[1])
+        if s.name == t.name:
+            return True
+        if (s.val & world.inh) != (t.val & world.inh):
+            return False
+        gs, gt = (s.extra or {}).get("gates"), (t.extra or {}).get("gates")
+        if gs is not None and gt is not None and gs != gt:
+            return False
+        return ctx.choose("interval-eq", 2) == 0
+
     return {
         "<range::BoundSet as std::clone::Clone>::clone": o_clone,
+        "<range::BoundSet as std::cmp::PartialEq>::eq": o_eq,
         "range::BoundSet::intersect": o_intersect,
         "range::BoundSet::difference": o_difference,
         "range::BoundSet::allows_any": o_allows_any,
